@@ -158,3 +158,67 @@ func typeName(t types.Type) string {
 
 // ControlsHook, when set, runs the control battery for a property and returns the kill matrix for the evidence.
 var ControlsHook func(id, tier string, seed int64, repo string) interface{}
+
+// apiReachable computes the functions reachable from the public API roots: exported functions of
+// package cache, the methods of the cache implementations and the interface methods of the map
+// implementations. Closures are reachable from the function that creates them.
+func apiReachable(r *Run) map[*ssa.Function]bool {
+	reach := map[*ssa.Function]bool{}
+	var visit func(f *ssa.Function)
+	visit = func(f *ssa.Function) {
+		if f == nil || reach[f] {
+			return
+		}
+		if _, lib := r.E.Of[f]; !lib {
+			return
+		}
+		reach[f] = true
+		for _, g := range r.E.Out[f] {
+			visit(g)
+		}
+		core.Instrs(f, func(in ssa.Instruction) {
+			if mc, ok := in.(*ssa.MakeClosure); ok {
+				visit(mc.Fn.(*ssa.Function))
+			}
+			if c, ok := in.(ssa.CallInstruction); ok {
+				if cal := core.Callee(c); cal != nil {
+					visit(cal)
+				}
+				// function values passed as arguments (e.g. the default hasher)
+				for _, a := range c.Common().Args {
+					if fv, ok := a.(*ssa.Function); ok {
+						visit(fv)
+					}
+				}
+			}
+		})
+	}
+	for _, f := range r.P.Funcs {
+		if f.Pkg == r.P.Cache && f.Parent() == nil && f.Signature.Recv() == nil && f.Object() != nil && f.Object().Exported() {
+			visit(f)
+		}
+	}
+	for i := 0; i < 2; i++ {
+		for _, f := range r.M.CacheM[i] {
+			visit(f)
+		}
+	}
+	for _, mm := range r.M.Maps {
+		for _, n := range []string{"Load", "Store", "LoadOrStore", "LoadAndStore", "LoadOrCompute", "Compute", "LoadAndDelete", "Delete", "Range", "Clear", "Size"} {
+			visit(mm.Methods[n])
+		}
+	}
+	return reach
+}
+
+func contains(s []string, x string) bool {
+	for _, y := range s {
+		if x == y {
+			return true
+		}
+	}
+	return false
+}
+
+// ExtraArchs lists, per property, build configurations analysed in addition to the host one already in the quick tier.
+var ExtraArchs = map[string][]string{"C14": {"386"}}
